@@ -8,7 +8,7 @@ from gen_state import *  # noqa
 PROP_FILES = ["State/Properties_C13.v"]
 MANIFEST = dict(
     technique="Coq proof over a file-system model (names -> inode -> bytes, per-inode flock) of atomic_write_with_lock_timeout as a step list; a crash is any prefix of the protocol; tied to /repo by killing the real CLI at every hook point (exhaustive) and comparing file bytes, left-over temp files, hook traces and the next commands with the model",
-    text="Theorems C13_crash_safe, C13_change_point, C13_never_partial, C13_next_load_ok, C13_no_discard, C13_intact_load, C13_temp_is_private, C13_temp_content, C13_truncation_detected, and for crash HISTORIES of a recycled pid (the stale temp file is part of the state; File::create truncates it) C13_save_after_any_crash_history, C13_crash_safe_after_history, C13_history_target_complete, and for a target that is a mount point C13_refused_rename hold for every prior state (absent or any bytes), every new content, every physical size and every crash point k (unbounded; D14 repaired, no known class). Tie: the SGV_TRACE of a real save equals the model's point list (C13_points_are_protocol); every point x prior in {absent, valid, valid ~1 MB} x kind in {baseline via check --update-baseline, history via snapshot, cache via check / stats} is killed for real (plus a command that saves two files, killed in either save; plus kills followed by a shorter save of a process with the SAME pid, each invocation being pid 1 of its own PID namespace, with the stale temp file in place; plus every kind with the state file as regular file / symbolic link / hard link / bind-mount point, un-killed with the protocol oracle `a save that changes the file's bytes has passed aw:start..aw:after_rename` and killed by strace syscall injection at write / copy_file_range on the target's path and at the rename) and the target, the temp file and the next commands (check --baseline, stats history, snapshot, check, stats summary) agree with the model and with the property oracle.",
+    text="Theorems C13_crash_safe, C13_change_point, C13_never_partial, C13_next_load_ok, C13_no_discard, C13_intact_load, C13_temp_is_private, C13_temp_content, C13_truncation_detected, C13_exclusive_temp_is_fresh, C13_exclusive_temp_refuses_shared_name (create_new: the temp name of a save is bound by that save only; C13_shared_temp_name_refuted keeps the D95 witness for a name two saves share), and for crash HISTORIES of a recycled pid (the stale temp file is part of the state; File::create truncates it) C13_save_after_any_crash_history, C13_crash_safe_after_history, C13_history_target_complete, and for a target that is a mount point C13_refused_rename hold for every prior state (absent or any bytes), every new content, every physical size and every crash point k (unbounded; D14 repaired, no known class). Tie: the SGV_TRACE of a real save equals the model's point list (C13_points_are_protocol); every point x prior in {absent, valid, valid above 1 MiB} x kind in {baseline via check --update-baseline, history via snapshot, cache via check / stats} is killed for real (plus a command that saves two files, killed in either save; plus kills followed by a shorter save of a process with the SAME pid, each invocation being pid 1 of its own PID namespace, with the stale temp file in place; plus two savers of one file, A held at a barrier inside its save while B is killed inside its own, as ordinary processes and each as pid 1 of its own PID namespace; plus every kind with the state file as regular file / symbolic link / hard link / bind-mount point, un-killed with the protocol oracle `a save that changes the file's bytes has passed aw:start..aw:after_rename` and killed by strace syscall injection at write / copy_file_range on the target's path and at the rename) and the target, the temp file and the next commands (check --baseline, stats history, snapshot, check, stats summary) agree with the model and with the property oracle.",
     note="Trusted: Coq kernel, extraction, kernel rename/flock semantics (atomic rebinding; per-inode reader-writer lock dropped at process death), std::process::abort as the crash (page cache survives: the Fsync step is checked as an ordering fact only, no power loss), JSON (de)serialisation abstracted to: complete documents parse, the empty file and proper prefixes do not (C13_truncation_detected).",
     ref="5 (C13)")
 
@@ -62,6 +62,8 @@ def make_template(cli, kind, prior):
     want = "absent" if prior == "absent" else "ok"
     if st != want:
         raise CheckBroken(f"template {kind}/{prior}: state file is {st}")
+    if prior == "large" and size < LARGE_MIN_BYTES:
+        raise CheckBroken(f"template {kind}/large: the state file has only {size} bytes (must exceed 1 MiB by a margin)")
     return sb, doc, size
 
 
@@ -221,6 +223,8 @@ def run(ctx):
                 bad = "entries recorded before the next commands were discarded"
         if bad is None and kind == "history" and o["state"] in ("empty", "torn"):
             bad = "history unreadable"
+        if bad is None and kind == "history":
+            bad = history_listing(o)
         if bad:
             rec = {"kind": "property-oracle", "what": bad, "case": case, "observed": {"state": o["state"], "next": summarize(o["next"], o["final_entries"])},
                    "replay_cmd": "python3 tools/vp.py check C13 --replay <this file>"}
@@ -245,8 +249,14 @@ def run(ctx):
     fails += lf
     hist["link / mount-point targets, syscall kills"] = ln
     ctx.cov["links_and_syscalls"] = lnote
-    ctx.cov["evaluations"] = len(cases) + cn + rn + ln
-    ctx.cov["distinct_nontrivial"] = len(really_killed) + ckilled + rkilled + lkilled
+    # ---- two processes saving the same file: one is killed while the other stands inside its save
+    tm, tf, tkilled, tn, tnote = two_process_crash(ctx, cli, drv, points)
+    mism += tm
+    fails += tf
+    hist["two savers, one killed"] = tn
+    ctx.cov["two_process_crash"] = tnote
+    ctx.cov["evaluations"] = len(cases) + cn + rn + ln + tn
+    ctx.cov["distinct_nontrivial"] = len(really_killed) + ckilled + rkilled + lkilled + tkilled
     ctx.cov["exhaustive"] = True
     ctx.cov["traces_validated_against_impl"] = trace_ok + len(really_killed)
     ctx.cov["rule"] = ("exhaustive product: every hook point of the save protocol (%d) x prior state {absent, valid, valid about 1 MB} x kind "
@@ -275,6 +285,28 @@ def run(ctx):
                           no_input=True)
         elif not proofs_ok:
             ctx.violation({"kind": "proof-broken", "details": ctx.proof_broken}, no_input=True)
+
+
+def history_header(n):
+    return "No history entries found." if n == 0 else "History (%d of %d entries)" % (min(n, 10), n)
+
+
+def history_listing(o):
+    """Absolute oracle for the commands after a kill of a history save (independent of the reference
+    runs, which use the same binary): `stats history` lists as many entries as the file on disk holds
+    (whatever its size), the next snapshot is recorded and APPENDS to them."""
+    before = o["entries_after_kill"] or []
+    after = o["final_entries"]
+    (n1, rc1, so1, _), (n2, rc2, so2, se2), (n3, rc3, so3, _) = o["next"]
+    if rc1 != 0 or not so1.startswith(history_header(len(before))):
+        return "stats history does not list the %d entries of the history file: exit %s, `%s`" % (len(before), rc1, so1[:50].strip())
+    if rc2 != 0 or "Snapshot recorded" not in so2:
+        return "the next snapshot is not recorded: exit %s %s" % (rc2, (se2 or so2).strip()[:120])
+    if after is None or after[:len(before)] != before or len(after) != len(before) + 1:
+        return "the next snapshot did not append to the %d recorded entries: the history now has %s" % (len(before), "no readable content" if after is None else "%d entries" % len(after))
+    if rc3 != 0 or not so3.startswith(history_header(len(after))):
+        return "stats history does not list the %d entries of the history file: exit %s, `%s`" % (len(after), rc3, so3[:50].strip())
+    return None
 
 
 def ns_available():
@@ -344,13 +376,18 @@ def recycled_pid(ctx, cli, drv, points):
                 n += 1
                 case = {"kind": "baseline", "prior": prior, "point": points[k], "k": k, "then": "same command with one violation fixed, same pid (PID namespace)"}
                 m = dict(x.split("=", 1) for x in mo.split("\t"))
-                if r["rc1"] == "killed" and r["stale"].get(1) is not None:
+                if r["rc1"] == "killed" and len(temps_of_pid(r["stale"], 1)) == 1:
                     killed += 1
                 else:
-                    mism.append({"relation": "the killed save (pid 1 of its namespace) leaves the temp file .<name>.tmp.1", "case": case, "impl": [r["rc1"], r["stale"]], "model": m["stale"]})
+                    mism.append({"relation": "the killed save (pid 1 of its namespace) leaves one temp file .<name>.tmp.1.<n>", "case": case, "impl": [r["rc1"], r["stale"]], "model": m["stale"]})
                 if m["target"] != "val:2" or m["temp"] != "absent":
                     raise CheckBroken("model: a complete save after a crash history must install the new content: " + mo)
-                if r["state2"] != "ok" or not r["same"] or r["left"] or r["next_rc"] != ref_next:
+                # D95: the temp file is created exclusively under a fresh name, so the residue of the killed save is
+                # neither reused nor touched (C13_temp_is_private); the later save removes its own temp file only
+                if r["left"] != r["stale"]:
+                    mism.append({"relation": "a save touches no temp file but its own: the residue of the killed save is unchanged, nothing else is left", "case": case,
+                                 "impl": r["left"], "model": r["stale"]})
+                if r["state2"] != "ok" or not r["same"] or r["next_rc"] != ref_next:
                     fails.append({"kind": "property-oracle", "what": "a save after a killed save of the same pid: baseline is %s (%d bytes, reference %d), equal to the reference: %s, temp files left: %s; next check --baseline exits %s (reference %s) %s"
                                   % (r["state2"], r["size2"], ref_size, r["same"], r["left"], r["next_rc"], ref_next, r["next_err"]), "case": case,
                                   "replay_cmd": "python3 tools/vp.py check C13 --replay <this file>"})
@@ -375,24 +412,138 @@ def recycled_pid(ctx, cli, drv, points):
                         rc1 = "killed"
                     d = os.path.dirname(os.path.join(sbig.proj, rel))
                     stale = temp_files(d, os.path.basename(rel))
-                    if rc1 != "killed" or stale.get(1) is None:
-                        mism.append({"relation": "the killed save (pid 1 of its namespace) leaves the temp file .<name>.tmp.1", "case": case, "impl": [rc1, stale]})
+                    mine = temps_of_pid(stale, 1)
+                    if rc1 != "killed" or len(mine) != 1:
+                        mism.append({"relation": "the killed save (pid 1 of its namespace) leaves one temp file .<name>.tmp.1.<n>", "case": case, "impl": [rc1, stale]})
                         continue
                     killed += 1
-                    tname = "." + os.path.basename(rel) + ".tmp.1"
+                    skey = list(mine)[0]
+                    tname = "." + os.path.basename(rel) + ".tmp." + skey
                     os.makedirs(os.path.dirname(os.path.join(sb.proj, rel)), exist_ok=True)
+                    # the residue under its own name and under the pid-only name of older versions
                     shutil.copy(os.path.join(d, tname), os.path.join(os.path.dirname(os.path.join(sb.proj, rel)), tname))
+                    shutil.copy(os.path.join(d, tname), os.path.join(os.path.dirname(os.path.join(sb.proj, rel)), "." + os.path.basename(rel) + ".tmp.1"))
                     rc2, _, se2 = run_ns(sb, cli, save_cmd(kind, "absent", "check"), now=NOW0 + 10)
                     st2, doc2, size2 = read_state(os.path.join(sb.proj, rel))
                     left = temp_files(os.path.dirname(os.path.join(sb.proj, rel)), os.path.basename(rel))
                     nxt, fst, fent = run_next(sb, cli, kind)
-                    if st2 != "ok" or doc2 != ref_doc or left or fst != "ok":
+                    if left != {skey: mine[skey], "1": mine[skey]}:
+                        mism.append({"relation": "a save touches no temp file but its own: the residues are unchanged, nothing else is left", "case": case, "impl": left, "model": {skey: mine[skey], "1": mine[skey]}})
+                    if st2 != "ok" or doc2 != ref_doc or fst != "ok":
                         fails.append({"kind": "property-oracle", "what": "a short %s save with a stale %d-byte temp file of the same pid: file is %s (%d bytes, reference %d), temp left %s, after the next commands %s"
-                                      % (kind, stale[1], st2, size2, ref_size, left, fst), "case": case})
+                                      % (kind, mine[skey], st2, size2, ref_size, left, fst), "case": case})
         finally:
             big.close()
             small.close()
     return mism, fails, killed, n, {"cases": n, "killed_as_pid_1": killed, "how": "unshare --pid --fork per invocation"}
+
+
+HOLD_KILL = [("aw:after_fsync", "aw:after_create_temp"), ("aw:after_fsync", "aw:after_fsync"), ("aw:after_create_temp", "aw:after_create_temp"),
+             ("aw:after_create_temp", "aw:after_fsync"), ("aw:after_flush", "aw:after_write")]
+
+
+def two_process_crash(ctx, cli, drv, points):
+    """Two processes save the same state file (the same command, started one after the other):
+    A is held at a barrier inside its save (temp file created / complete), B is killed inside
+    ITS save, then A is released and finishes. The temp file of a save is private to it
+    (C13_temp_is_private: Temp p is touched by process p only), so B's death can do nothing to
+    what A renames: the target is A's complete document, the only residue is B's temp file.
+    Each pair runs (a) as two ordinary processes (distinct pids) and (b) each as pid 1 of its own
+    PID namespace (two containers sharing the project directory).
+    History: the update lock keeps B out of the save while A is inside (B gives up after its lock
+    time-out without touching anything); the oracle is the same."""
+    import time as _t
+    mism, fails, killed, n = [], [], 0, 0
+    flav = [False] + ([True] if ns_available() else [])
+    jobs = []
+    tpl = {}
+    for kind in KINDS:
+        for prior in ("absent", "valid"):
+            tsb, prior_doc, _ = make_template(cli, kind, prior)
+            tpl[(kind, prior)] = (tsb, prior_doc, reference(cli, tsb, kind, prior, "check", points))
+            for ns in flav:
+                for hold, kill in (HOLD_KILL if kind != "history" else HOLD_KILL[:2]):
+                    jobs.append((kind, prior, ns, hold, kill))
+
+    def one(job):
+        kind, prior, ns, hold, kill = job
+        tsb, prior_doc, ref = tpl[(kind, prior)]
+        with copy_template(tsb) as sb:
+            sync = os.path.join(sb.base, "sync")
+            os.makedirs(sync)
+            tra, trb = os.path.join(sb.base, "trace-a"), os.path.join(sb.base, "trace-b")
+            target = os.path.join(sb.proj, KIND_FILE[kind])
+            argv = ([cli] if not ns else ["unshare", "--pid", "--fork", cli]) + ["--color", "never"] + save_cmd(kind, prior, "check")
+            ea = dict(sb.env)
+            ea.update(base_env(NOW0, {"SGV_SYNC_DIR": sync, "SGV_TAG": "A", "SGV_SYNC_POINTS": hold, "SGV_TRACE": tra}))
+            pa = subprocess.Popen(argv, cwd=sb.proj, env=ea, stdout=subprocess.PIPE, stderr=subprocess.PIPE)
+            at = os.path.join(sync, "A.0.%s.at" % hold)
+            t0 = _t.time()
+            while not os.path.exists(at) and pa.poll() is None and _t.time() - t0 < 30:
+                _t.sleep(0.002)
+            held = os.path.exists(at)
+            rcb, _, seb = sb.run(argv[0], argv[1:], env=base_env(NOW0, {"SGV_CRASH_AT": kill, "SGV_TRACE": trb, "SGV_LOCK_TIMEOUT_MS": "300"}), timeout=60)
+            awb = [x for v in read_trace(trb).values() for x in v if x.startswith("aw:")]
+            mst, mdoc, _ = read_state(target)
+            mid_state = classify(kind, mst, mdoc, prior_doc, ref["new_doc"])
+            mid_temps = sorted(temp_files(os.path.dirname(target), os.path.basename(target)).values())
+            open(os.path.join(sync, "A.0.go"), "w").close()
+            try:
+                soa, sea = pa.communicate(timeout=60)
+            except subprocess.TimeoutExpired:
+                pa.kill()
+                soa, sea = pa.communicate()
+            awa = [x for v in read_trace(tra).values() for x in v if x.startswith("aw:")]
+            st, doc, size = read_state(target)
+            o = {"held": held, "rc_a": pa.returncode, "aw_a": awa, "rc_b": rcb, "aw_b": awb, "b_killed": rcb not in (0, 1, 2) and awb == points[:points.index(kill) + 1],
+                 "mid_state": mid_state, "mid_temps": mid_temps, "state": classify(kind, st, doc, prior_doc, ref["new_doc"]), "size": size,
+                 "temps": sorted(temp_files(os.path.dirname(target), os.path.basename(target)).values()),
+                 "entries_after_kill": entries_of(kind, doc), "err_a": sea.decode("utf-8", "replace").strip()[-200:]}
+            o["next"], o["final_state"], o["final_entries"] = run_next(sb, cli, kind)
+            return o
+
+    try:
+        with cf.ThreadPoolExecutor(max_workers=8) as ex:
+            res = list(ex.map(one, jobs))
+    finally:
+        for tsb, _, _ in tpl.values():
+            tsb.close()
+    for (kind, prior, ns, hold, kill), o in zip(jobs, res):
+        n += 1
+        ref = tpl[(kind, prior)][2]
+        case = {"kind": kind, "prior": prior, "A_held_at": hold, "B_killed_at": kill, "then": "two savers",
+                "processes": "each pid 1 of its own PID namespace (unshare --pid --fork)" if ns else "two ordinary processes",
+                "command": save_cmd(kind, prior, "check")}
+        killed += 1 if o["b_killed"] else 0
+        # model: B's prefix touches Temp B only; A's complete save installs the new document and removes Temp A
+        want_temps = [] if not o["b_killed"] else ([0] if kill == "aw:after_create_temp" or (kill == "aw:after_write" and ref["new_size"] < 8192) else [ref["new_size"]])
+        if not o["held"] or o["aw_a"] != points or o["rc_a"] != ref["save_rc"]:
+            mism.append({"relation": "the held process A passes the whole protocol once released (exit as in a solo save)", "case": case,
+                         "impl": [o["held"], o["rc_a"], o["aw_a"], o["err_a"]], "model": [ref["save_rc"], points]})
+        elif kind != "history" and not o["b_killed"]:
+            mism.append({"relation": "process B is killed at its point while A is held (no lock is held by A there)", "case": case, "impl": [o["rc_b"], o["aw_b"]]})
+        elif o["state"] != "new" or o["temps"] != want_temps:
+            mism.append({"relation": "target == A's document, residue == B's private temp file (Temp p is touched by p only)", "case": case,
+                         "impl": [o["state"], o["temps"]], "model": ["new", want_temps]})
+        bad = None
+        unchanged = "absent" if prior == "absent" else "prior"
+        if o["mid_state"] != unchanged:
+            bad = "after B was killed (A still held before its rename) the %s file is %s" % (kind, o["mid_state"])
+        elif o["state"] not in (unchanged, "new"):
+            bad = "%s file is %s (%d bytes) after B was killed at %s and A, held at %s, finished its save" % (kind, o["state"], o["size"], kill, hold)
+        elif o["aw_a"] == points and o["rc_a"] == ref["save_rc"] and o["state"] != "new":
+            bad = "A completed its save (hook trace complete, exit %s) but the %s file is %s" % (o["rc_a"], kind, o["state"])
+        else:
+            want = ref["next_new"] if o["state"] == "new" else ref["next_prior"]
+            if o["next"] != want[0]:
+                bad = "a next command behaves differently from the same command on an intact %s file" % o["state"]
+            elif kind == "history":
+                bad = history_listing(o)
+        if bad:
+            fails.append({"kind": "property-oracle", "what": bad, "case": case,
+                          "observed": {"state": o["state"], "temps": o["temps"], "A": [o["rc_a"], o["err_a"]], "B": [o["rc_b"], o["aw_b"][-1:]], "next": summarize(o["next"], o["final_entries"])},
+                          "replay_cmd": "python3 tools/vp.py check C13 --replay <this file>"})
+    return mism, fails, killed, n, {"cases": n, "B_killed_inside_its_save": killed, "pid_namespace_variant": len(flav) == 2}
 
 
 FLAVOURS = ["regular", "symlink", "hardlink", "bindmount"]
@@ -621,7 +772,7 @@ def replay(ctx, path):
         return 0
     if "then" in c or c.get("kind") == "cache+baseline":
         print("case :", c)
-        f = (links_and_syscalls(ctx, cli, drv, points) if c.get("then") == "link/mount" else recycled_pid(ctx, cli, drv, points) if "then" in c else combo(ctx, cli, drv, points))
+        f = (links_and_syscalls(ctx, cli, drv, points) if c.get("then") == "link/mount" else two_process_crash(ctx, cli, drv, points) if c.get("then") == "two savers" else recycled_pid(ctx, cli, drv, points) if "then" in c else combo(ctx, cli, drv, points))
         print("mismatches:", json.dumps(f[0])[:1500])
         print("oracle    :", json.dumps(f[1])[:3000])
         return 0
